@@ -146,7 +146,11 @@ def replay(tid, cons, styles, rounds, rng, oneaudit=False):
                     else:
                         mvr_sample.append(CVR(id=cv.id, votes={c: dict(vote_dict(v, rng)) for c, v in kinds.items()
                                                                 if v not in ("missing", "unfound")}))
-                rng.shuffle(mvr_sample)
+                if rng.random() < 0.3:     # both lists in shelf (card id) order, paired but not in selection order
+                    mvr_sample.sort(key=lambda c_: str(c_.id))
+                    cvr_sample.sort(key=lambda c_: str(c_.id))
+                else:
+                    rng.shuffle(mvr_sample)
                 CVR.prep_comparison_sample(mvr_sample, cvr_sample, sample_order)
                 data, us = {}, {}
                 for c in cons:
